@@ -2,7 +2,7 @@
   Per-program evaluation of the DECIDABLE hypotheses of `C01_composition` / `C01_middle` / `C12_of_linkChecks`
   and of the decidable content of the links of `C12_chain`: used by the checks C01 and C12 on every accepted
   program of a run (request `links <file.sc>` of sccmodel).
-  One line: `OK [validMain|noValidMain] [sequenced] [labelUnsafe] [frag] [int] [data] [overCapacity]` | `REJECTED ..` | `FAIL <names of failing checks>`.
+  One line: `OK [validMain|noValidMain] [sequenced] [labelUnsafe] [frag] [int] [data] [e2e] [overCapacity]` | `REJECTED ..` | `FAIL <names of failing checks>`.
 
   * the hypotheses proper (the theorems take them as `… = true`):
       `noMainCall`   `Scc.Fun.noMainCall p'`              (only reported for programs with a valid `main`)
@@ -28,6 +28,13 @@
                      closure: `create` / `invoke`).  On /repo/examples + /verif/gen/corpus (232 accepted programs
                      with a valid `main`): `frag` 106, `int` 18, `data` 19 (every `int` program and
                      fun2core/s26_exit_leaf_lit.sc).
+      `validMain p' && noMainCall p' && C01_backChecks p'` (= `C01_endChecks`, Props/C01End.lean) is reported as
+                     the TAG `e2e`: THE decidable hypotheses of the UNCONDITIONAL end-to-end theorem
+                     `C01_end_to_end : C01_statement_final` (Props/C01End.lean) — valid `main` that is not
+                     called and the side conditions `C01_backChecks` of the x86-64 link; closures, recursion,
+                     codata, non-sequenced programs included.  With a valid `main`, `data` implies `e2e`.  On
+                     /repo/examples (8) + /verif/gen/corpus (225 accepted programs with a valid `main`): `e2e`
+                     on all but regress/c14_xtor_digit_segments.sc (`labelUnsafe`, the finding of C14).
       `C01_capacity p'` is reported as the TAG `overCapacity` when it FAILS: the static capacity condition of
                      Theorem A (`C06Generic.ProgWithinCapacity` of S5: fewer than 500000 live variables in
                      every reachable context), a hypothesis of part (3) of `C01_middle` and of the lemmas through
@@ -81,6 +88,7 @@ def linksLine (src : String) : String :=
             (if C01_fragChecks p' then " frag" else "") ++
             (if C01_intChecks p' then " int" else "") ++
             (if C01_dataChecks p' then " data" else "") ++
+            (if validMain p' && Fun.noMainCall p' && C01_backChecks p' then " e2e" else "") ++
             (if C01_capacity p' then "" else " overCapacity")
         else "FAIL " ++ " ".intercalate bad
 
